@@ -197,5 +197,16 @@ def _pol_complete(ctx):
     return np.asarray(idx[ctx["rng"].integers(len(idx))], np.int32)
 
 
+def _pol_rainbow(ctx):
+    """A colour no node uses yet, every time (always legal): the episode ends with as many colours as nodes - the saturated
+    end of the colour range, which no colour-reusing player reaches on sparse graphs."""
+    m = np.asarray(ctx["ts"].observation.action_mask)
+    used = set(int(c) for c in np.asarray(ctx["state"].colors) if c >= 0)
+    fresh = [int(c) for c in np.flatnonzero(m) if int(c) not in used]
+    if not fresh:
+        return _pol_complete(ctx)
+    return np.asarray(fresh[int(ctx["rng"].integers(len(fresh)))], np.int32)
+
+
 def policies(P):
-    return {"complete": _pol_complete, "greedy": _pol_greedy}
+    return {"complete": _pol_complete, "greedy": _pol_greedy, "frontier": _pol_rainbow}
